@@ -1695,6 +1695,20 @@ fn c08(thorough: bool) -> Suite {
         &[env(2, 1, None, pb2(thorough))],
         true,
     ));
+    // every non-blocking send variant against a buffer that is exactly full
+    ps.extend(product(
+        "c08-try",
+        &[
+            seqs(&[Op::TrySend, Op::TrySendO, Op::TrySendRt, Op::TrySendORt], 2),
+            seqs_upto(&[Op::TryRecv, Op::Len(Side::R), Op::IsFull(Side::R)], 2),
+        ],
+        &[Cap::B(0), Cap::B(1), Cap::B(2)],
+        &[Class::P],
+        &[vec![(S, S), (S, S)], vec![(A, A), (A, A)]],
+        &[(S, Conv::Clone)],
+        &[env(2, 1, None, pb2(thorough))],
+        false,
+    ));
     ps.extend(three_sends("c08-3sends", thorough, Class::P));
     ps.extend(states_family("c08-states", Class::P, &[Cap::B(0), Cap::B(1), Cap::B(2)], &[env(2, 1, None, Some(4))], thorough));
     // zero-sized messages: the buffer's allocation is unbounded for them, only
@@ -1771,7 +1785,7 @@ fn c08(thorough: bool) -> Suite {
     ));
     Suite {
         cfg: cfg(&[Oracle::Capacity, Oracle::Outcome, Oracle::Linear], &[], false, false),
-        rule: "producers out-numbering consumers by one and two, with blocking, timed, try_ and async sends (incl. pending and cancelled futures), receives, drains and len/is_full observers; capacities {0,1,2,unbounded}; history invariant S(t)-R(t)<=n at every successful send's return; refusal exactly when full and nobody waits (outcome set of the reference model)".into(),
+        rule: "producers out-numbering consumers by one and two, with blocking, timed, try_ (all four variants, incl. the realtime ones, against an exactly full buffer) and async sends (incl. pending and cancelled futures), receives, drains and len/is_full observers; capacities {0,1,2,unbounded}; history invariant S(t)-R(t)<=n at every successful send's return; refusal exactly when full and nobody waits (outcome set of the reference model)".into(),
         programs: ps,
     }
 }
